@@ -13,11 +13,13 @@ package node
 
 //@ func (c *core) fastForward(block *hg.Block, frame *hg.Frame) error
 //@   requires c != nil && c.hg != nil && c.validator != nil && block != nil && frame != nil && len(frame.Peers) < 2147483648
-//@   requires forall i int :: 0 <= i && i < len(frame.Peers) ==> peers.PeerOK(frame.Peers[i])
-//@   requires forall r int :: __in(r, frame.PeerSets) ==> len(frame.PeerSets[r]) < 2147483648 && (forall i int :: 0 <= i && i < len(frame.PeerSets[r]) ==> peers.PeerOK(frame.PeerSets[r][i]))
+//@   requires forall r int :: __in(r, frame.PeerSets) ==> len(frame.PeerSets[r]) < 2147483648
 //@   ensures[accept-peers-hash]  ret0 == nil ==> __seqeq(peers.PSHashOf(old(frame.Peers)), old(block.Body.PeersHash))
 //@   ensures[accept-frame-hash]  ret0 == nil ==> __seqeq(old(hg.FrameHashOf(*frame)), old(block.Body.FrameHash))
 //@   ensures[accept-signatures]  ret0 == nil ==> (exists ps *peers.PeerSet :: ps != nil && __eq(old(ps.Peers), old(frame.Peers)) && old(ps.WF()) && old(hg.SignedByMoreThanThird(block, ps)))
+//@   ensures[validators-latest] ret0 == nil ==> c.validators != nil && ((forall r int :: __in(r, frame.PeerSets) ==> r <= frame.Round) ==> __eq(c.validators.Peers, frame.Peers)) && (forall r int :: __in(r, frame.PeerSets) && r > frame.Round ==> (exists m int :: __in(m, frame.PeerSets) && m >= r && (forall r2 int :: __in(r2, frame.PeerSets) ==> r2 <= m) && __eq(c.validators.Peers, frame.PeerSets[m])))
+//@   ensures[trusted-signer]    ret0 == nil ==> (exists v string :: (exists k string :: __in(k, old(block.Signatures)) && v == common.Enc(common.KeyBytesOf(k)) && hg.BlockSigOK(block, common.KeyBytesOf(k), old(block.Signatures)[k])) && (__in(v, old(c.peers.ByPubKey)) || __in(v, old(c.genesisPeers.ByPubKey)) || __in(v, old(c.validators.ByPubKey))))
+//@   loop 1 invariant[latest]   c.validators != nil && lastRound >= frame.Round && (forall r int :: __vis(r) ==> r <= lastRound) && ((lastRound == frame.Round && __eq(c.validators.Peers, frame.Peers)) || (lastRound > frame.Round && __in(lastRound, frame.PeerSets) && __eq(c.validators.Peers, frame.PeerSets[lastRound])))
 //@   ensures[refused-untouched]  ret0 != nil && !__called("Reset") ==> __unchanged(c.validators, c.peers, c.peerSelector, c.head, c.seq, c.hg)
 //@   ensures[refused-untouched-hg]  ret0 != nil && !__called("Reset") ==> __eq(c.hg.Snapshot(), old(c.hg.Snapshot()))
 
